@@ -54,6 +54,7 @@ type Case struct {
 	Prepare       bool        `json:"prepare_stmt"`
 	DisableNested bool        `json:"disable_nested"`
 	SkipDefault   bool        `json:"skip_default_tx"`
+	ValueTx       bool        `json:"value_tx,omitempty"`   // with pool_shim: the wrapper's BeginTx returns its transaction by value
 	PoolShim      bool        `json:"pool_shim"`            // gorm is opened on a ConnPool wrapper (ConnPoolBeginner path) instead of *sql.DB
 	HandleErr     bool        `json:"handle_err,omitempty"` // the handle the program starts from already carries an error (an earlier failure)
 	ErrClass      string      `json:"err_class,omitempty"`  // injected driver errors wrap this well-known error (simdrv.ClassError)
@@ -193,6 +194,7 @@ func (g *gen) block(depth int) *Block {
 
 func (Prop) Gen(r *core.Rand, tier string) interface{} {
 	c := &Case{Prepare: r.Chance(35), DisableNested: r.Chance(25), SkipDefault: r.Chance(30), PoolShim: r.Chance(30), Pick: r.Int63()}
+	c.ValueTx = c.PoolShim && r.Chance(30)
 	g := &gen{r: r, keys: []string{"base"}}
 	if r.Chance(75) {
 		c.Tree = g.block(1)
@@ -283,7 +285,8 @@ func (Prop) Shrink(ci interface{}) []interface{} {
 		func(v *Case) bool { x := v.Prepare; v.Prepare = false; return x },
 		func(v *Case) bool { x := v.DisableNested; v.DisableNested = false; return x },
 		func(v *Case) bool { x := v.SkipDefault; v.SkipDefault = false; return x },
-		func(v *Case) bool { x := v.PoolShim; v.PoolShim = false; return x },
+		func(v *Case) bool { x := v.ValueTx; v.ValueTx = false; return x },
+		func(v *Case) bool { x := v.PoolShim && !v.ValueTx; v.PoolShim = false; return x },
 		func(v *Case) bool { x := v.ErrClass != ""; v.ErrClass = ""; return x },
 		func(v *Case) bool { x := v.HandleErr; v.HandleErr = false; return x },
 	} {
@@ -1003,6 +1006,7 @@ func (p Prop) exec(c *Case, faults []*ops.Fault) (*result, error) {
 	if c.PoolShim || cf != nil || c.ctxProbe {
 		o.WrapPool = func(db *sql.DB, drv *simdrv.Sim) gorm.ConnPool {
 			pool = simpool.New(db, drv)
+			pool.ValueTx = c.ValueTx
 			return pool
 		}
 	}
